@@ -125,6 +125,37 @@ ALPHABET3 = ALPHABET[:36]           # the letters used for three-instruction fil
 # operands in lower case hexadecimal
 STYLES = (None, 'lh')
 
+# String operands of data statements (part T).  The texts are what stands between the double quotes in the skool file.
+STRINGS = [
+    'Hi there',                     # mixed case text
+    'SIXLIVES IXH IYH IYL',         # the index register halves, upper case (-u writes the registers as IXh/IXl/IYh/IYl)
+    'pixl ixh iyh iyl',             # the same in lower case
+    'a\\"B',                        # \" in the middle
+    'a\\\\B',                       # \\ in the middle
+    'Ab\\"',                        # \" at the end
+    'Ab\\\\',                       # \\ at the end
+    '\\"',                          # single characters: an escaped quote, an escaped backslash, a letter
+    '\\\\',
+    'q',
+]
+CHARS = ['\\"', '\\\\', 'q']            # characters that can stand in an expression
+NUMBERS = ['13', '$1F']
+
+
+def string_statements(tier):
+    """Every data statement of part T, simplest first."""
+    text_items = ['"{}"'.format(t) for t in STRINGS] + ['"{}"+128'.format(c) for c in CHARS] + NUMBERS
+    word_items = [f.format(c) for c in CHARS for f in ('"{}"', '"{}"+128')] + NUMBERS
+    out = []
+    for n in range(1, (3 if tier == 'thorough' else 2) + 1):
+        for d in ('DEFB', 'DEFM'):
+            out.extend('{} {}'.format(d, ','.join(seq)) for seq in itertools.product(text_items, repeat=n))
+        if n < 3:
+            out.extend('DEFW {}'.format(','.join(seq)) for seq in itertools.product(word_items, repeat=n))
+    out.extend('DEFS 2,{}'.format(i) for i in word_items if i not in NUMBERS)
+    return out
+
+
 # Hosts for the directive parts: three instructions that all refer to one another.
 HOST_I0 = 'LD HL,{A2}'
 HOST_X = ['XOR A', 'LD A,5', 'JP {A0}', 'LD IX,({A1}+1)']       # sizes 1-4
@@ -1131,6 +1162,10 @@ def groups(tier, seed):
         for seq in itertools.product(ALPHABET, repeat=n):
             for sp in _splits(n):
                 yield ('L', dict(base=base, entries=_entries(seq, sp), style='lh'), [(1, 0)], opts_all if n == 1 or tier == 'thorough' else option_deviations(1), False)
+    # ---- part T: string operands of data statements x case x base options, in both source styles
+    for stmt in string_statements(tier):
+        for style in STYLES:
+            yield ('T', dict(base=base, entries=[[stmt]], style=style), [(1, 0)], [o for o in opts_all if not o['c']], False)
     # ---- part P: directives other than single @*sub/@*fix.  Mode-independent forms: x all 18 options;
     # mode-dependent forms (@if, two kinds on one instruction): x all 9 modes x label options
     for ent in hosts(tier, HOST_X + HOST_X_P, short=tier == 'thorough', splits=None if tier == 'thorough' else [(3,), (1, 2)]):
@@ -1288,6 +1323,10 @@ def run(tier, seed):
         'L (source style): every file of part A of 1-2 instructions written in the lower case hexadecimal style of sna2skool -H -l (operations in lower case outside strings, instruction '
         'addresses and address operands as $xxxx with lower case digits) x mode (1,0) x {ol}; the alphabet has data statements and an instruction whose operands are expressions over '
         'hexadecimal numbers with digits A-F. '
+        'T (strings in data statements): DEFB and DEFM with every sequence of {nt} items over {{the {nss} string shapes (mixed case text; text containing IXH/IXL/IYH/IYL in upper and in lower case; '
+        '\\" and \\\\ in the middle and at the end of a string; the single characters "\\"", "\\\\" and "q"), those {ncs} characters +128, the numbers 13 and $1F}}, DEFW with every sequence of 1-2 items over '
+        '{{those characters, with and without +128, the two numbers}}, DEFS 2,c for each character item: each statement as a one-instruction file in both source styles x mode (1,0) x '
+        '{{-D,-H,none}} x {{-l,-u,none}}. '
         'P (other directives): {np} forms (@org bare/=same/=hex/=shifted/after a gap, @equ x4, @label x4, @keep x2, @nowarn x2, @defb/@defs/@defw x5, @bytes, @if x4, @isub+@ofix on one '
         'instruction) x every anchor x {hp}: mode-independent forms x modes {mp} x all 18 options, mode-dependent forms x all 9 modes x {{no labels, -c, @label on every instruction}}. '
         'B (@*sub/@*fix): {nf} forms (replace same/longer/shorter, LABEL:/comment/final-comment variants, > x2, + x2, replace+append, | x6, ! x2, +begin/-begin..+else/-begin..-end blocks) x '
@@ -1306,6 +1345,7 @@ def run(tier, seed):
         mp='(1,0),(3,3)' if T else '(1,0)', nf=len(SUB_FORMS),
         hb='6 kinds x 9 modes x every host (4 anchor letters x 2 third instructions x 4 splits + 20 shorter hosts)' if T
         else '6 kinds x 9 modes on the default host, and @rsub in modes (2,0),(3,1) on the 11 other three-instruction hosts (4 anchor letters x splits (3),(1,2),(2,1)) and 12 shorter hosts',
+        nt='1-3' if T else '1-2', nss=len(STRINGS), ncs=len(CHARS),
         ny=sum(len(v) for v in LABEL_ROLES.values()),
         hy='6 kinds x 9 modes on the default host, and @rsub in modes (2,0),(3,1) on every other host' if T else '6 kinds x modes (2,2),(3,3) on the default host',
         ks='6 kinds x 9 modes' if T else '@bfix in modes (1,1),(1,2)', ko='6 kinds x 9 modes' if T else '@ssub/@bfix in mode (2,2)',
@@ -1333,7 +1373,7 @@ def run(tier, seed):
             'chained @*sub/@*fix directives use the | marker on all directives of a chain or on none, as in the documented examples (a > line may precede)',
             'operands of generated instructions never name a label textually; labels in the ASM text come from -c, @label, LABEL: and @equ only',
         ],
-        required_guards=['part_A', 'part_L', 'asm_defx', 'part_P', 'part_B', 'part_Y', 'part_S', 'part_O', 'part_H', 'case_a', 'case_b_in_domain', 'out_of_domain_unlabelled_relocation', 'asm_org', 'asm_equ',
+        required_guards=['part_A', 'part_L', 'asm_defx', 'part_T', 'part_P', 'part_B', 'part_Y', 'part_S', 'part_O', 'part_H', 'case_a', 'case_b_in_domain', 'out_of_domain_unlabelled_relocation', 'asm_org', 'asm_equ',
                          'asm_label', 'asm_label_refs', 'asm_gap', 'html_runs', 'peek_addresses_compared'] + ['in_force_' + k for k in KINDS] + ['label_syntax_in_force_' + x for x in LSYN] + ['form_' + f for f in SUB_FORMS + OTHER_FORMS],
         extra={'out_of_domain_unlabelled_relocation': stats.counters.get('out_of_domain_unlabelled_relocation', 0),
                'form_not_applicable': stats.counters.get('form_not_applicable', 0)},
